@@ -2,6 +2,10 @@ NOTE_COMMON = ("trusts gqlparser v2.5.1 (also used by pebbles), the harness's se
                "the Go runtime and race detector; absence of violations is a statement about the explored cases only")
 
 CHECKS = [
+    {"property_id": "C02", "category": "exploration", "design_ref": "DESIGN.md §5 C02",
+     "technique": "property-based testing (rapid): generated worlds x operations; validity predicates over the real planner's steps and over the requests fake services receive",
+     "text": "for generated (world, operation) pairs the steps returned by the real SequentialPlanner and the requests the fake services actually receive (saturated data, so every step fires) must parse and validate with gqlparser's full rule set against the target service's own schema, carry the right operation keyword/name, forward client variable values or declared defaults, cover every field instance the reference executor resolves, and add only id/node helpers that are scrubbed from the response",
+     "level_note": NOTE_COMMON + "; coverage is judged dynamically on saturated data rather than by static expansion; feature classes of open findings are gated"},
     {"property_id": "C01", "category": "exploration", "design_ref": "DESIGN.md §5 C01",
      "technique": "property-based differential testing (rapid): generated worlds x data x operations through the real gateway vs a reference GraphQL executor on the union schema",
      "text": "rapid generates federated worlds (service SDLs + one shared entity store), client operations from a grammar (aliases, arguments, variables, fragments, directives, abstract types, lists, nulls) and gateway configurations (merger, id hint, plain/cached planner, service order); the real gateway is driven through its HTTP handler with fake services behind the real MultiOpQueryer, and its data (modulo pruning of empty objects) must equal what a reference executor computes on the union schema over the same store, with errors empty. Open known findings are replayed and reported as KNOWN-FINDING; their syntactic feature classes are excluded from the search and counted",
@@ -20,7 +24,7 @@ CHECKS = [
      "level_note": NOTE_COMMON + "; schedule control limited to callbacks and the 9 verif hook points"},
 ]
 
-_PENDING = ["C02","C05","C06","C07","C08","C09","C10","C11","C12","C13","C14","C15","C16","C17","C18","C19"]
+_PENDING = ["C05","C06","C07","C08","C09","C10","C11","C12","C13","C14","C15","C16","C17","C18","C19"]
 NOT_APPLICABLE = [{"property_id": p, "reason": "check not built yet (work in progress; the technique applies, see DESIGN.md §5)"} for p in _PENDING]
 
 NOTES = "All checks are property-based tests / fuzz targets in /verif/harness (Go, rapid v1.3.0) run by /verif/check; see DESIGN.md."
